@@ -306,7 +306,29 @@ func (g *Gen) csvCell(maxLen int) string {
 	}
 }
 
+// sameConfTwice: one configuration (types, enum values, headers) used for several documents in a row
+func (g *Gen) sameConfTwice() {
+	docs := []string{"d,n\nmon,1\ntue,2\nwed,3\n", "d,n\nwed,1\nmon,2\n", "d,n\ntue,5\nsun,6\n", "d,n\nmon,1\ntue,2\nwed,3\n"}
+	confs := []*CsvConf{
+		{HasTypes: true, Types: []TypeDecl{{Name: toBS("d"), Typ: "enum"}}, HasEnumVals: true, EnumVals: []EnumDecl{{Name: toBS("d"), Vals: bsList([]string{"wed", "tue", "mon"})}}},
+		{HasTypes: true, Types: []TypeDecl{{Name: toBS("d"), Typ: "enum"}, {Name: toBS("n"), Typ: "float"}}},
+		{Headers: bsList([]string{"x", "y"}), HasTypes: true, Types: []TypeDecl{{Name: toBS("x"), Typ: "string"}}},
+		{EmptyNull: true, HasTypes: true, Types: []TypeDecl{{Name: toBS("n"), Typ: "string"}}, RenameDup: true},
+	}
+	for _, c := range confs {
+		g.begin("same configuration")
+		for _, d := range docs {
+			f := g.do(Step{Op: "ReadCSV", Recv: -1, Doc: toBS(d), Csv: c})
+			if g.frame(f).Err == nil && c.HasEnumVals {
+				g.do(Step{Op: "Sort", Recv: f, Orders: []Order{{Col: toBS("d")}}})
+			}
+		}
+		g.end()
+	}
+}
+
 func genC12(g *Gen) {
+	g.sameConfTwice()
 	for rep := 0; rep < g.pick(140, 3000); rep++ {
 		nc := 1 + g.rng.Intn(4)
 		nr := []int{0, 1, 2, 3, 5, 9, 20}[g.rng.Intn(7)]
@@ -692,6 +714,11 @@ func (g *Gen) indexArrangements() {
 			srt := g.do(Step{Op: "Sort", Recv: f, Orders: []Order{{Col: toBS("P"), Rev: g.rng.Intn(4) == 0}}})
 			cl := Clause{K: "leaf", Col: toBS("P"), CmpK: "str", Cmp: "<", Arg: &Val{T: "int", I: 50}}
 			g.do(Step{Op: "Filter", Recv: srt, Clause: &cl})
+			rb := g.do(Step{Op: "Rebuild", Recv: srt})
+			g.do(Step{Op: "Equals", Recv: srt, Other: rb})
+			g.do(Step{Op: "Equals", Recv: rb, Other: srt})
+			g.do(Step{Op: "Equals", Recv: srt, Other: f})
+			g.do(Step{Op: "Equals", Recv: f, Other: srt})
 			g.do(Step{Op: "SliceObs", Recv: -1, A: 1}) // every member is now read again through Slice()
 			for _, c := range []string{"P", "F", "T"} {
 				g.do(Step{Op: "View", Recv: srt, Dst: toBS(c)})
